@@ -719,6 +719,16 @@ func (c *FnCtx) havoc(st *State, li *loopInfo) {
 			st.heap[base] = n
 			c.heapAxioms(st, base, n)
 		}
+		for _, base := range sortedKeysB(li.heapBases) {
+			if base == "alloc" {
+				continue
+			}
+			if n, ok := st.heap[base]; ok {
+				if ax := c.closureAxiom(n, base, c.alloc(st)); ax != "" {
+					st.addDef(ax)
+				}
+			}
+		}
 		if oldAlloc != "" {
 			st.addDef("(forall ((r Int)) (! (=> (select " + oldAlloc + " r) (select " + c.alloc(st) + " r)) :pattern ((select " + oldAlloc + " r))))")
 		}
@@ -793,6 +803,12 @@ func (c *FnCtx) evalInvariant(cl *Clause, loop ast.Stmt, st *State) string {
 			}
 		}
 		_, obj := scope.LookupParent(nm, bodyPos)
+		if obj == nil && strings.HasSuffix(nm, "0") {
+			if t, ok := c.paramTerms[strings.TrimSuffix(nm, "0")]; ok {
+				args[nm] = t
+				continue
+			}
+		}
 		if obj == nil {
 			c.fail(loop.Pos(), "invariant refers to unknown local %s", nm)
 		}
@@ -808,6 +824,15 @@ func (c *FnCtx) evalInvariant(cl *Clause, loop ast.Stmt, st *State) string {
 func (c *FnCtx) checkInvariants(invs []*Clause, loop ast.Stmt, st *State, phase string, pos token.Pos) {
 	n := c.loopOrd[loop]
 	for i, cl := range invs {
+		if cl.Unbound != "" {
+			if phase == "init" {
+				save := c.curProp
+				c.curProp = cl.Prop
+				c.oblige(st, "drift", fmt.Sprintf("loop%d.inv[%d].binds", n, i), "false", pos, cl.Text+"  -- "+cl.Unbound)
+				c.curProp = save
+			}
+			continue
+		}
 		g := c.evalInvariant(cl, loop, st)
 		save := c.curProp
 		c.curProp = cl.Prop
@@ -822,6 +847,9 @@ func (c *FnCtx) checkInvariants(invs []*Clause, loop ast.Stmt, st *State, phase 
 
 func (c *FnCtx) assumeInvariants(invs []*Clause, loop ast.Stmt, st *State) {
 	for _, cl := range invs {
+		if cl.Unbound != "" {
+			continue
+		}
 		st.addFact(c.evalInvariant(cl, loop, st))
 	}
 }
